@@ -232,10 +232,10 @@ package nitro
 //@ nopanic
 
 // Configuration: the three comparators stored in the instance are the closures built by SetKeyComparator.
-//@ pure isInsCmp(f ref) bool = forall a, b ref {cmpf(f, a, b)} :: cmpf(f, a, b) == insc(cast(*Item, a), cast(*Item, b))
-//@ pure isIterCmp(f ref) bool = forall a, b ref {cmpf(f, a, b)} :: cmpf(f, a, b) == kc(a, b)
-//@ pure isExistCmp(f ref) bool = forall a, b ref {cmpf(f, a, b)} :: cmpf(f, a, b) == exc(cast(*Item, a), cast(*Item, b))
-//@ pure cfgOK(m *Nitro) bool = isInsCmp(m.insCmp) && isIterCmp(m.iterCmp) && isExistCmp(m.existCmp)
+//@ pure isInsCmp(f ref) bool = forall a, b ref, h state {cmpf(f, a, b)} :: cmpf(f, a, b) == insc(cast(*Item, a), cast(*Item, b))
+//@ pure isIterCmp(f ref) bool = forall a, b ref, h state {cmpf(f, a, b)} :: cmpf(f, a, b) == kc(a, b)
+//@ pure isExistCmp(f ref) bool = forall a, b ref, h state {cmpf(f, a, b)} :: cmpf(f, a, b) == exc(cast(*Item, a), cast(*Item, b))
+//@ pure cfgOK(m *Nitro) bool = m.insCmp != nil && m.iterCmp != nil && m.existCmp != nil && isInsCmp(m.insCmp) && isIterCmp(m.iterCmp) && isExistCmp(m.existCmp)
 
 //@ pure itmAt(m *Nitro, i int) *Item = cast(*Item, m.store.phys[i].itm)
 //@ pure wfItems(m *Nitro) bool = forall i int {m.store.phys[i]} :: 0 <= i && i < m.store.n ==> m.store.phys[i].itm != nil && m.store.phys[i].itm != skiplist.MaxItem
@@ -271,7 +271,7 @@ package nitro
 //@ func (*Nitro).newItem
 //@ trusted allocates an item (allocItem) and copies the bytes; the new item's key is the given byte string
 //@ modifies heap($alive), heap($brk), mem(uint8)
-//@ ensures itm != nil && itm >= old(brk()) && itm < 72057594037927936 && itm.dataLen == len(data) && itm.bornSn == 0 && itm.deadSn == 0
+//@ ensures itm != nil && itm >= old(brk()) && brk() >= itm + 12 + len(data) && itm < 72057594037927936 && itm.dataLen == len(data) && itm.bornSn == 0 && itm.deadSn == 0
 //@ ensures forall i int :: 0 <= i && i < len(data) ==> mem8(itm + 12 + i) == old(data[i])
 //@ ensures forall a int :: a < old(brk()) ==> mem8(a) == old(mem8(a))
 //@ ensures sameKeyAsView(itm, data)
@@ -727,3 +727,137 @@ package nitro
 //@ loop 2 invariant[ctx] m != nil && snap != nil && closeFail == old(closeFail) && 0 <= id && len(writers) == shards && len(files) == shards && len(checksums) == shards && len(deltaWriters) == len(deltaFiles) && len(deltaChecksums) == len(deltaWriters)
 //@ loop 3 invariant[ctx] m != nil && closeFail == old(closeFail) && -1 <= rangeindex && rangelen == len(writers) && len(checksums) == len(writers) && err == nil
 //@ ensures[close-error] err == nil ==> closeFail == old(closeFail)
+
+// ---------------------------------------------------------------------------
+// C02 / C01 / C06 / C07: writer operations on the version store (sequential, modulo L1)
+// ---------------------------------------------------------------------------
+
+//@ pure wfEpoch(m *Nitro) bool = m.currSn >= 1 && m.currSn < 4294967295 &&
+//@     (forall i int {m.store.phys[i]} :: 0 <= i && i < m.store.n ==> itmAt(m, i).bornSn <= m.currSn && itmAt(m, i).deadSn <= m.currSn && (itmAt(m, i).bornSn == m.currSn ==> itmAt(m, i).deadSn == 0) && itmAt(m, i) < brk())
+//@ pure wfDB(m *Nitro) bool = wfStore(m) && wfEpoch(m) && m.store.head.itm == skiplist.MinItem
+//@ pure liveAt(m *Nitro, i int) bool = itmAt(m, i).deadSn == 0
+//@ pure existsLive(m *Nitro, x ref) bool = exists i int {m.store.phys[i]} :: 0 <= i && i < m.store.n && kc(itmAt(m, i), x) == 0 && liveAt(m, i)
+//@ pure wfWriter2(w *Writer) bool = w != nil && w.Nitro != nil && wfDB(w.Nitro) && w.buf != nil && len(w.buf.preds) >= 1 && len(w.buf.succs) >= 1 && w.rand != nil && w.store.barrier != nil &&
+//@     ptr(w.buf.preds) + 8 * len(w.buf.preds) <= brk() && ptr(w.buf.succs) + 8 * len(w.buf.succs) <= brk() && w < brk()
+
+//@ callback-field Config.existCmp(fn ref, a ref, b ref) r int
+//@ pure-call
+//@ ensures r == exc(cast(*Item, a), cast(*Item, b)) && r == cmpf(fn, a, b)
+
+//@ callback-type "func() float32"(fn ref) r float32
+//@ pure-call
+
+//@ ghost field Writer.probe *Item
+
+//@ func (*Writer).Put2
+//@ props C02 C01 C07
+//@ use sl-globals
+//@ use! kc-antisym kc-trans kc-refl for call[(*skiplist.Skiplist).Insert2]
+//@ use! kc-antisym kc-trans kc-refl for ensures[reject-only-if-live]
+//@ use! kc-antisym kc-trans kc-refl for ensures[insert-only-if-no-live]
+//@ use! kc-antisym kc-trans kc-refl insAt-def for ensures[wf
+//@ chain-ensures
+//@ requires wfWriter3(w) && w.count < 4611686018427387904 && w.count > -4611686018427387904 && len(bs) < 4294967296 && w.store.n < 1099511627775
+//@ modifies w.count, w.probe, w.buf.pos, elems(w.buf.preds), elems(w.buf.succs), w.store.phys, w.store.n, heap(skiplist.Node.$nx), heap(skiplist.Node.$del), w.store.level, heap($alive), heap($brk), mem(int32), mem(uint8)
+//@ modifies w.slSts1.nodeAllocs, w.slSts1.usedBytes, w.slSts1.levelNodesCount, w.slSts1.insertConflicts, w.slSts1.readConflicts, heap($g.mlive)
+//@ ghost-exit w.probe := x
+//@ ensures[probe] w.probe != nil && w.probe >= old(brk()) && w.probe.dataLen == len(bs) && (forall i int :: 0 <= i && i < len(bs) ==> mem8(w.probe + 12 + i) == old(bs[i]))
+//@ ensures[reject-only-if-live] n == nil ==> old(existsLive(w.Nitro, now(w.probe)))
+//@ ensures[insert-only-if-no-live] n != nil ==> !old(existsLive(w.Nitro, now(w.probe)))
+//@ ensures[insert] n != nil ==> w.store.n == old(w.store.n) + 1 && w.count == old(w.count) + 1 && n.itm == w.probe && w.probe.bornSn == w.currSn && w.probe.deadSn == 0 &&
+//@     0 <= w.buf.pos && w.buf.pos <= old(w.store.n) && w.store.phys == insAt(old(w.store.phys), w.buf.pos, n)
+//@ ensures[reject] n == nil ==> w.store.n == old(w.store.n) && w.store.phys == old(w.store.phys) && w.count == old(w.count)
+//@ ensures[headers-stable] forall i int {old(w.store.phys[i])} :: 0 <= i && i < old(w.store.n) ==> cast(*Item, old(w.store.phys[i]).itm).bornSn == old(cast(*Item, w.store.phys[i].itm).bornSn) && cast(*Item, old(w.store.phys[i]).itm).deadSn == old(cast(*Item, w.store.phys[i].itm).deadSn)
+//@ ensures[wf-items] wfItems(w.Nitro)
+//@ ensures[wf-epoch] wfEpoch(w.Nitro)
+//@ ensures[wf-sorted] wfSorted(w.Nitro)
+//@ ensures[wf-versions] wfVersions(w.Nitro)
+//@ ensures[wf-gc] wfGC(w)
+//@ ensures[wf] wfWriter3(w)
+//@ nopanic
+
+// A writer's lookup finds a node iff a live item with an equal key exists; the node found holds that item.
+//@ func (*Writer).GetNode
+//@ props C02
+//@ use sl-globals
+//@ use! kc-antisym kc-trans kc-refl for call[(*skiplist.Iterator).SeekWithCmp]
+//@ use! kc-antisym kc-trans kc-refl for ensures[found-only-if-live]
+//@ use! kc-antisym kc-trans kc-refl for ensures[live-is-found]
+//@ use! kc-antisym kc-trans kc-refl for ensures[found-node]
+//@ requires wfWriter3(w) && len(bs) < 4294967296
+//@ modifies w.probe, w.buf.pos, elems(w.buf.preds), elems(w.buf.succs), w.store.Stats.readConflicts, heap($alive), heap($brk), mem(int32), mem(uint8)
+//@ ghost-exit w.probe := x
+//@ ensures[probe] w.probe != nil && w.probe >= old(brk()) && w.probe.dataLen == len(bs) && (forall i int :: 0 <= i && i < len(bs) ==> mem8(w.probe + 12 + i) == old(bs[i]))
+//@ ensures[found-only-if-live] result != nil ==> existsLive(w.Nitro, w.probe)
+//@ ensures[live-is-found] existsLive(w.Nitro, w.probe) ==> result != nil
+//@ ensures[found-node] result != nil ==> 0 <= w.buf.pos && w.buf.pos <= w.store.n && (exists i int {w.store.phys[i]} :: 0 <= i && i < w.store.n && w.store.phys[i] == result && kc(itmAt(w.Nitro, i), w.probe) == 0 && liveAt(w.Nitro, i))
+//@ ensures[store-unchanged] w.store.n == old(w.store.n) && w.store.phys == old(w.store.phys) && w.count == old(w.count)
+//@ ensures[wf] wfWriter3(w)
+//@ ensures[headers-stable] forall p ref {cast(*Item, p).deadSn}{cast(*Item, p).bornSn} :: p < old(brk()) ==> cast(*Item, p).bornSn == old(cast(*Item, p).bornSn) && cast(*Item, p).deadSn == old(cast(*Item, p).deadSn)
+//@ nopanic
+
+// Per-writer garbage list: the nodes whose item this writer stamped dead in the current epoch, linked through Node.Link.
+//@ ghost field Writer.gl [int]ref
+//@ ghost field Writer.gln int
+//@ ghost field Writer.didx int
+//@ pure glNode(w *Writer, k int) *skiplist.Node = cast(*skiplist.Node, w.gl[k])
+//@ pure wfGC(w *Writer) bool = w.gln >= 0 && (w.gln == 0 <==> w.gctail == nil) && (w.gln == 0 <==> w.gchead == nil) &&
+//@     (w.gln > 0 ==> w.gchead == w.gl[0] && w.gctail == w.gl[w.gln - 1] && w.gctail.Link == nil) &&
+//@     (forall k int {w.gl[k]} :: 0 <= k && k < w.gln ==> w.gl[k] != nil && cast(*Item, glNode(w, k).itm).deadSn == w.currSn && cast(*Item, glNode(w, k).itm).bornSn < w.currSn && (k + 1 < w.gln ==> glNode(w, k).Link == w.gl[k + 1])) &&
+//@     (forall k, l int {w.gl[k], w.gl[l]} :: 0 <= k && k < l && l < w.gln ==> w.gl[k] != w.gl[l])
+//@ pure wfWriter3(w *Writer) bool = wfWriter2(w) && wfGC(w)
+//@ pure memberAt(w *Writer, x ref, i int) bool = 0 <= i && i < w.store.n && w.store.phys[i] == x
+
+// Delete of a node of the structure: succeeds iff its item is live. A version born in the current epoch is removed
+// physically and handed to the barrier exactly once; an older version is stamped dead in the current epoch and
+// appended to this writer's garbage list exactly once.
+//@ func (*Writer).DeleteNode
+//@ props C02 C06 C07 C01
+//@ use sl-globals
+//@ use! delAt-def for ensures[wf]
+//@ use! delAt-def for ensures[same-epoch]
+//@ requires wfWriter3(w) && x != nil && w.count < 4611686018427387904 && w.count > -4611686018427387904
+//@ requires[member] exists i int {w.store.phys[i]} :: memberAt(w, x, i)
+//@ ghost-pre w.didx :| memberAt(w, x, w.didx)
+//@ modifies w.count, w.didx, w.gl, w.gln, w.gchead, w.gctail, w.buf.pos, elems(w.buf.preds), elems(w.buf.succs), w.store.phys, w.store.n, heap(skiplist.Node.$nx), heap(skiplist.Node.$del), mem(int32)
+//@ modifies x.Link, old(w.gctail).Link, cast(*Item, x.itm).deadSn, handed[x]
+//@ modifies w.slSts1.softDeletes, w.slSts1.usedBytes, w.slSts1.levelNodesCount, w.slSts1.readConflicts
+//@ ghost-exit if success && old(cast(*Item, x.itm).bornSn != w.currSn) then w.gl := store(w.gl, w.gln, x)
+//@ ghost-exit if success && old(cast(*Item, x.itm).bornSn != w.currSn) then w.gln := w.gln + 1
+//@ ensures[iff-live] success <==> old(cast(*Item, x.itm).deadSn) == 0
+//@ ensures[count] w.count == old(w.count) - ite(success, 1, 0)
+//@ ensures[didx] 0 <= w.didx && w.didx < old(w.store.n) && old(w.store.phys)[w.didx] == x
+//@ ensures[same-epoch] old(cast(*Item, x.itm).bornSn == w.currSn) ==> success && w.store.n == old(w.store.n) - 1 && w.store.phys == delAt(old(w.store.phys), w.didx) &&
+//@     handed[x] == old(handed[x]) + 1 && w.gln == old(w.gln) && w.gl == old(w.gl) && cast(*Item, x.itm).deadSn == 0
+//@ ensures[cross-epoch] old(cast(*Item, x.itm).bornSn != w.currSn) ==> w.store.n == old(w.store.n) && w.store.phys == old(w.store.phys) && handed[x] == old(handed[x]) &&
+//@     (success ==> cast(*Item, x.itm).deadSn == w.currSn && w.gln == old(w.gln) + 1 && w.gl == store(old(w.gl), old(w.gln), x)) &&
+//@     (!success ==> cast(*Item, x.itm).deadSn == old(cast(*Item, x.itm).deadSn) && w.gln == old(w.gln) && w.gl == old(w.gl))
+//@ ensures[others-stable] forall p ref {cast(*Item, p).deadSn} :: p != x.itm ==> cast(*Item, p).deadSn == old(cast(*Item, p).deadSn)
+//@ ensures[wf] wfWriter3(w)
+//@ nopanic
+
+// Delete by key: succeeds iff a live item with an equal key exists, and then removes exactly that item (physically
+// when it was born in the current epoch, otherwise by stamping it dead in the current epoch).
+//@ func (*Writer).Delete2
+//@ props C02
+//@ use sl-globals
+//@ chain-ensures
+//@ requires wfWriter3(w) && w.count < 4611686018427387904 && w.count > -4611686018427387904 && len(bs) < 4294967296
+//@ modifies w.count, w.probe, w.didx, w.gl, w.gln, w.gchead, w.gctail, w.buf.pos, elems(w.buf.preds), elems(w.buf.succs), w.store.phys, w.store.n, heap(skiplist.Node.$nx), heap(skiplist.Node.$del), mem(int32), mem(uint8)
+//@ modifies heap(skiplist.Node.Link), heap(Item.deadSn), heap($g.handed), heap($alive), heap($brk), w.store.Stats.readConflicts
+//@ modifies w.slSts1.softDeletes, w.slSts1.usedBytes, w.slSts1.levelNodesCount, w.slSts1.readConflicts
+//@ ensures[iff-live] success <==> old(existsLive(w.Nitro, now(w.probe)))
+//@ ensures[fail] !success ==> n == nil && w.store.n == old(w.store.n) && w.store.phys == old(w.store.phys) && w.count == old(w.count) && w.gln == old(w.gln) && w.gl == old(w.gl)
+//@ ensures[fail-stable] !success ==> (forall p ref {cast(*Item, p).deadSn} :: p < old(brk()) ==> cast(*Item, p).deadSn == old(cast(*Item, p).deadSn))
+//@ ensures[removed-item] success ==> n != nil && 0 <= w.didx && w.didx < old(w.store.n) && old(w.store.phys)[w.didx] == n && kc(n.itm, w.probe) == 0 && old(cast(*Item, n.itm).deadSn) == 0
+//@ ensures[removed-how] success ==> w.count == old(w.count) - 1 &&
+//@     (old(cast(*Item, n.itm).bornSn) == w.currSn ==> w.store.n == old(w.store.n) - 1 && w.store.phys == delAt(old(w.store.phys), w.didx) && handed[n] == old(handed[n]) + 1 && w.gln == old(w.gln)) &&
+//@     (old(cast(*Item, n.itm).bornSn) != w.currSn ==> w.store.n == old(w.store.n) && w.store.phys == old(w.store.phys) && cast(*Item, n.itm).deadSn == w.currSn && w.gln == old(w.gln) + 1 && w.gl == store(old(w.gl), old(w.gln), n))
+//@ ensures[exactly-that-item] success ==> (forall p ref {cast(*Item, p).deadSn} :: p != n.itm && p < old(brk()) ==> cast(*Item, p).deadSn == old(cast(*Item, p).deadSn))
+//@ ensures[wf] wfWriter3(w)
+//@ nopanic
+
+//@ func (*Writer).Put
+//@ inline
+//@ func (*Writer).Delete
+//@ inline
